@@ -72,6 +72,10 @@ def shape_programs():
     for sp, lp in (("u8", "u32"), ("u32", "u8"), ("u16", "u8"), ("u8", "u16")):
         P.append(("flat-prefix-%s-%s" % (sp, lp),
                   "options {\n    StringPrefixLenType = %s;\n    ArrayPrefixLenType = %s;\n}\n" % (sp, lp) + flat))
+    # a match field INSIDE an inline object (its packet has no MatchFields table of its own), reached through a root match
+    P.append(("inline-match", "packet LegA {\n    u32 Px,\n}\npacket LegB {\n    u16 Qty,\n}\npacket Order {\n    u32 Id,\n    Leg {\n        u8 Kind,\n"
+              "        match Kind as Detail {\n            1 : LegA,\n            2 : LegB,\n        },\n    },\n}\n"
+              "root packet Msg {\n    u16 MsgType,\n    match MsgType as Body {\n        1 : Order,\n    },\n}\n"))
     P.append(("flat-signed", """root packet Flat {
     i8 a,
     i16 b,
